@@ -94,14 +94,14 @@ fn small(ctx: &mut Ctx) {
 
 // Independent re-derivation of the documented parameter rule (w ~ log2(n) - log2(m), w >= 1), used only to aim the
 // generator; what the library actually chose is read from the serialized bytes.
-fn predict_width(n: usize, m: usize) -> usize {
+pub fn predict_width(n: usize, m: usize) -> usize {
     if m == 0 || m > n { return 1; }
     let ideal = ((n as f64) * std::f64::consts::LN_2 / (m as f64)).log2();
     let w = ideal.round();
     if w < 1.0 { 1 } else { w as usize }
 }
 
-fn universe_for(rng: &mut Rng, w: usize, m: usize) -> Option<usize> {
+pub fn universe_for(rng: &mut Rng, w: usize, m: usize) -> Option<usize> {
     // n ~ m * 2^w / ln 2, jittered inside the rounding interval.
     let base = (m as f64) * (2.0f64).powi(w as i32) / std::f64::consts::LN_2;
     for _ in 0..40 {
